@@ -84,6 +84,7 @@ def FSOPEN_CLOEXEC : Nat := 1
 def FSMOUNT_CLOEXEC : Nat := 1
 def MOUNT_ATTRS : Nat := 14
 def OPEN_TREE_CLONE : Nat := 1
+def OPEN_TREE_CLOEXEC : Nat := 0o2000000
 def AT_RECURSIVE : Nat := 0x8000
 
 def OPEN_HOW_SIZE : Nat := 24
